@@ -1,0 +1,53 @@
+//! Verification hooks (feature `verif-hooks` only): thin public wrappers around the
+//! crate-private graph routines so that an external harness can compare them with reference
+//! loops directly. Adds no behaviour; not compiled unless the feature is enabled.
+use crate::array::{ArrayKind, NaturalArray};
+use crate::finite_function::FiniteFunction;
+use crate::indexed_coproduct::IndexedCoproduct;
+use crate::strict::graph;
+use crate::strict::hypergraph::Hypergraph;
+
+pub fn converse<K: ArrayKind>(
+    r: &IndexedCoproduct<K, FiniteFunction<K>>,
+) -> IndexedCoproduct<K, FiniteFunction<K>>
+where
+    K::Type<K::I>: NaturalArray<K>,
+{
+    graph::converse(r)
+}
+
+pub fn operation_adjacency<K: ArrayKind, O, A>(
+    h: &Hypergraph<K, O, A>,
+) -> IndexedCoproduct<K, FiniteFunction<K>>
+where
+    K::Type<K::I>: NaturalArray<K>,
+{
+    graph::operation_adjacency(h)
+}
+
+pub fn node_adjacency<K: ArrayKind, O, A>(
+    h: &Hypergraph<K, O, A>,
+) -> IndexedCoproduct<K, FiniteFunction<K>>
+where
+    K::Type<K::I>: NaturalArray<K>,
+{
+    graph::node_adjacency(h)
+}
+
+pub fn indegree<K: ArrayKind>(
+    adjacency: &IndexedCoproduct<K, FiniteFunction<K>>,
+) -> FiniteFunction<K>
+where
+    K::Type<K::I>: NaturalArray<K>,
+{
+    graph::indegree(adjacency)
+}
+
+pub fn kahn<K: ArrayKind>(
+    adjacency: &IndexedCoproduct<K, FiniteFunction<K>>,
+) -> (K::Index, K::Type<K::I>)
+where
+    K::Type<K::I>: NaturalArray<K>,
+{
+    graph::kahn(adjacency)
+}
